@@ -150,6 +150,26 @@ class Ctx:
             cwd=HARNESS, env=env, stdout=subprocess.PIPE, stderr=subprocess.STDOUT, text=True,
         )
         if p.returncode != 0:
+            # development convenience: a driver file that is not committed yet (someone is still writing it) must not
+            # block the other checks -- rebuild from a copy of the harness without the untracked files that fail
+            bad = set(re.findall(r"(cmd/vdrive/[A-Za-z0-9_]+\.go):\d+", p.stdout))
+            untracked = set()
+            try:
+                g = subprocess.run(["git", "-C", VERIF, "ls-files", "--others", "--exclude-standard", "harness/cmd/vdrive"],
+                                   stdout=subprocess.PIPE, text=True)
+                untracked = set(x[len("harness/"):] for x in g.stdout.split())
+            except OSError:
+                pass
+            if bad and bad <= untracked:
+                alt = os.path.join(self.scratch, "harness-copy")
+                shutil.copytree(HARNESS, alt)
+                for f in bad:
+                    os.remove(os.path.join(alt, f))
+                self.log("harness build: skipping uncommitted in-progress files %s" % sorted(bad))
+                mf = modflags
+                p = subprocess.run(["go", "build"] + mf + ["-tags", "verif", "-o", out, "./cmd/vdrive"],
+                                   cwd=alt, env=env, stdout=subprocess.PIPE, stderr=subprocess.STDOUT, text=True)
+        if p.returncode != 0:
             print(p.stdout[-4000:])
             raise Unresolved("harness build failed (lindb/lindb or harness does not compile with -tags verif)")
         self.log("built harness against %s in %.1fs" % (REPO, time.time() - t))
